@@ -265,8 +265,8 @@ def mval(m, e, default=0):
     return default
 
 
-def same(a, b):
-    """structural equality of two engine values as a z3 Bool"""
+def same(a, b, modbase=False):
+    """structural equality of two engine values as a z3 Bool (modbase: wire slices compared by offset/length only)"""
     from mirse.models.bytesm import Buf, Rope, VTerm
     if a is None and b is None:
         return z3.BoolVal(True)
@@ -277,13 +277,13 @@ def same(a, b):
     if isinstance(a, Enum) and isinstance(b, Enum):
         if a.var != b.var or len(a.fields) != len(b.fields):
             return z3.BoolVal(False)
-        return z3.And([same(x, y) for x, y in zip(a.fields, b.fields)] or [z3.BoolVal(True)])
+        return z3.And([same(x, y, modbase) for x, y in zip(a.fields, b.fields)] or [z3.BoolVal(True)])
     if isinstance(a, Agg) and isinstance(b, Agg):
         if a.ty != b.ty or len(a.fields) != len(b.fields):
             return z3.BoolVal(False)
-        return z3.And([same(x, y) for x, y in zip(a.fields, b.fields)] or [z3.BoolVal(True)])
+        return z3.And([same(x, y, modbase) for x, y in zip(a.fields, b.fields)] or [z3.BoolVal(True)])
     if isinstance(a, Buf) and isinstance(b, Buf):
-        return z3.And(a.off == b.off, a.len == b.len) if a.base.eq(b.base) else z3.BoolVal(False)
+        return z3.And(a.off == b.off, a.len == b.len) if (modbase or a.base.eq(b.base)) else z3.BoolVal(False)
     if isinstance(a, VTerm) and isinstance(b, VTerm):
         return a.t == b.t
     if isinstance(a, Rope) and isinstance(b, Rope):
@@ -294,7 +294,7 @@ def same(a, b):
             if p[0] != q[0]:
                 return z3.BoolVal(False)
             if p[0] == 'buf':
-                cs.append(same(p[1], q[1]))
+                cs.append(same(p[1], q[1], modbase))
             elif p[0] in ('bv', 'val', 'dec'):
                 cs.append(p[1] == q[1] if p[1].sort() == q[1].sort() else z3.BoolVal(False))
             elif p[0] == 'lit':
